@@ -135,6 +135,8 @@ pub struct World {
     pub aborted: Option<String>,
     /// free-form identification of the case (history index, shard, ...) copied into scenarios
     pub tag: Value,
+    /// set while source / loader faults are installed (C09)
+    pub faults_active: bool,
     double_drops_at_start: u64,
     /// (cache, key, reload id, reloaded_global) of entries first seen since the last drain
     fresh_entries: Vec<(usize, Key, u64, bool)>,
@@ -195,6 +197,7 @@ impl World {
             last_pass: None,
             aborted: None,
             tag: Value::Null,
+            faults_active: false,
             double_drops_at_start: ledger::double_drops(),
             fresh_entries: vec![],
         };
@@ -642,9 +645,17 @@ impl World {
             // ---- values (C05): affected assets equal a fresh load against the
             // current source and current cache; a failing reload keeps the old value
             if in_order {
-                let want = match fresh.get(key) {
-                    Some((Some(v), _)) => v.clone(),
-                    _ => res.before[key].clone(),
+                // a reload that failed in the model (undecodable source, injected
+                // fault, panicking loader) keeps the previous value
+                let want = if self.faults_active {
+                    // with injected faults the expectation is the model's own
+                    // pass, which was given the same faults
+                    res.after_pass[key].clone()
+                } else {
+                    match fresh.get(key) {
+                        Some((Some(v), _)) if !res.failed.contains(key) && !res.panicked.contains(key) => v.clone(),
+                        _ => res.before[key].clone(),
+                    }
                 };
                 if obs.v != want {
                     // The real dependency graph may now differ from the model's
@@ -747,6 +758,40 @@ impl World {
         self.fresh_entries.clear();
         self.last_pass = Some(res);
         stats
+    }
+
+    /// Presence and value of every key of `universe` (plus every key the
+    /// model holds) are the same in the real caches and in the model.
+    pub fn full_compare(&mut self, rep: &mut Report, j: &Judge, universe: &[(usize, Key)]) {
+        if self.aborted.is_some() {
+            return;
+        }
+        let mut keys: BTreeSet<(usize, Key)> = universe.iter().cloned().collect();
+        for c in 0..self.real.len() {
+            for k in self.model.caches[c].entries.keys() {
+                keys.insert((c, k.clone()));
+            }
+        }
+        for (c, k) in keys {
+            let m = self.model.caches[c].entries.get(&k).map(|e| e.value.clone());
+            let r = match self.real[c].get_cached(Fe::Direct, k.0, &k.1) {
+                Outcome::Ok(o) => o.map(|o| o.v),
+                other => {
+                    self.bad(rep, j, "get-cached-failed", json!({"cache": c, "key": format!("{} {:?}", k.0.tag(), k.1), "got": format!("{other:?}")}));
+                    continue;
+                }
+            };
+            if m != r {
+                let clause = match (&m, &r) {
+                    (None, Some(_)) => "unexpected-entry-visible",
+                    (Some(_), None) => "entry-missing",
+                    _ => "entry-value-differs",
+                };
+                self.bad(rep, j, clause, json!({"cache": c, "key": format!("{} {:?}", k.0.tag(), k.1),
+                    "real": format!("{r:?}"), "model": format!("{m:?}")}));
+            }
+            rep.count("full_compare_keys", 1);
+        }
     }
 
     /// C13: exactly the tokens owned by currently cached entries are alive, and
